@@ -105,6 +105,7 @@ pub fn all_mutants(seed: &Seed, rng: &mut Rng, quick: bool) -> Vec<Mutant> {
         out.push(Mutant { class: "valid-prefix+random".into(), bytes: v });
     }
     out.extend(recommitted(seed, quick));
+    out.extend(rescheduled(seed));
     // structurally valid proofs with inconsistent components (edited through the public fields)
     let mut sem: Vec<(&str, Proof)> = Vec::new();
     for nq in [0u8, 1, 2, 254, 255] {
@@ -148,6 +149,95 @@ pub fn all_mutants(seed: &Seed, rng: &mut Rng, quick: bool) -> Vec<Mutant> {
     sem.push(("context-of-another-proof", p));
     for (what, p) in sem {
         out.push(Mutant { class: format!("semantic:{what}"), bytes: p.to_bytes() });
+    }
+    out
+}
+
+/// relabelled FRI schedule: the proof's options claim another folding factor / remainder degree, and the FRI part of
+/// the proof (number of layers, layer records, layer commitments) is re-shaped to what the claimed options imply -
+/// including schedules that no honest prover would use (a folded domain smaller than the folding factor). An
+/// option byte edited alone never gets this far: the layer count no longer matches and the proof is refused early.
+pub fn rescheduled(seed: &Seed) -> Vec<Mutant> {
+    let mut out = Vec::new();
+    let o = &seed.inst.options;
+    let ds = digest_size(seed.inst.hs);
+    let field = |name: &str| seed.map.fields.iter().find(|f| f.name == name);
+    let (Some(cm), Some(ff), Some(fr), Some(nl), Some(modulus)) = (field("commitments"), field("context.options.fri_folding"), field("context.options.fri_remainder_max_degree"), field("fri.num_layers"), field("context.field_modulus")) else { return out };
+    let elem = modulus.len * o.field_extension().degree() as usize;
+    let lde = seed.inst.shape.n() * o.blowup_factor();
+    let digests: Vec<&[u8]> = seed.bytes[cm.off..cm.off + cm.len].chunks(ds).collect();
+    let nseg = seed.map.num_segments;
+    let old_layers = seed.map.fri_layer_records.len();
+    if cm.len % ds != 0 || digests.len() != nseg + 1 + old_layers + 1 {
+        return out;
+    }
+    let layers_end = seed.map.fri_layer_records.last().map(|r| r.1).unwrap_or(nl.off + 1);
+    for folding in [2usize, 4, 8, 16] {
+        for rem in [0usize, 1, 3, 7, 15, 31, 63, 127, 255] {
+            if folding == o.to_fri_options().folding_factor() && rem == o.to_fri_options().remainder_max_degree() {
+                continue;
+            }
+            // the layer count the claimed options imply (the documented rule, integer division included)
+            let mut d = lde;
+            let mut nlayers = 0usize;
+            while d > (rem + 1) * o.blowup_factor() {
+                d /= folding;
+                nlayers += 1;
+            }
+            if nlayers > 40 {
+                continue;
+            }
+            for variant in 0..3usize {
+                // layer records: 0 = the proof's own records reused in turn; 1 / 2 = minimal well-formed records with
+                // one / two rows of zero elements sized for the claimed folding factor and an opening without nodes
+                let mut recs: Vec<u8> = Vec::new();
+                for j in 0..nlayers {
+                    if variant == 0 && old_layers > 0 {
+                        let (a, b) = seed.map.fri_layer_records[j % old_layers];
+                        recs.extend_from_slice(&seed.bytes[a..b]);
+                    } else {
+                        let rows = if variant == 2 { 2 } else { 1 };
+                        let vals = vec![0u8; rows * folding * elem];
+                        recs.extend_from_slice(&(vals.len() as u32).to_le_bytes());
+                        recs.extend_from_slice(&vals);
+                        recs.extend_from_slice(&1u32.to_le_bytes());
+                        recs.push(0);
+                    }
+                }
+                let mut cbody: Vec<u8> = Vec::new();
+                for dgt in &digests[..nseg + 1] {
+                    cbody.extend_from_slice(dgt);
+                }
+                for j in 0..nlayers {
+                    cbody.extend_from_slice(digests[nseg + 1 + if old_layers > 0 { j % old_layers } else { old_layers }]);
+                }
+                cbody.extend_from_slice(digests[digests.len() - 1]);
+                if cbody.len() > u16::MAX as usize {
+                    continue;
+                }
+                let mut v: Vec<u8> = seed.bytes[..cm.off - 2].to_vec();
+                v[ff.off] = folding as u8;
+                v[fr.off] = rem as u8;
+                v.extend_from_slice(&(cbody.len() as u16).to_le_bytes());
+                v.extend_from_slice(&cbody);
+                v.extend_from_slice(&seed.bytes[cm.off + cm.len..nl.off]);
+                v.push(nlayers as u8);
+                v.extend_from_slice(&recs);
+                v.extend_from_slice(&seed.bytes[layers_end..]);
+                let ill = {
+                    let mut d = lde;
+                    let mut bad = false;
+                    for _ in 0..nlayers {
+                        if d < folding {
+                            bad = true;
+                        }
+                        d /= folding;
+                    }
+                    bad
+                };
+                out.push(Mutant { class: format!("fri-schedule-relabelled:{}:{}", if ill { "layer-smaller-than-folding-factor" } else { "well-formed-schedule" }, ["own-records", "minimal-records-1-row", "minimal-records-2-rows"][variant]), bytes: v });
+            }
+        }
     }
     out
 }
